@@ -90,6 +90,10 @@ func (p *FunctionBuilder) CreateFunction(m *bmodel.MethodEntry) (*gmodel.Functio
 
 	srcVar := p.createVar(src, srcDefName)
 	dstVar := p.createVar(dst, dstDefName)
+	if m.Opts.Style == gmodel.DstVarArg {
+		// In arg style the destination is always declared as a pointer parameter.
+		dstVar.Pointer = true
+	}
 	additionalArgsVars := make([]gmodel.Var, len(additionalArgs))
 	for i, arg := range additionalArgs {
 		additionalArgsVars[i] = p.createVar(arg, fmt.Sprintf("arg%d", i))
